@@ -677,3 +677,238 @@ pub(crate) fn ref_encode_prop(p: &Property<'_>, out: &mut [u8; 24]) -> usize {
     }
     n
 }
+
+// ---------------------------------------------------------------------------------------------
+// Reference checker for packets a broker sends to a client (no AUTH, no topic alias)
+// ---------------------------------------------------------------------------------------------
+#[derive(Copy, Clone)]
+pub(crate) struct ServerParsed {
+    pub(crate) ok: bool,
+    pub(crate) typ: u8,
+    pub(crate) flags: u8,
+    pub(crate) packet_id: u16,
+    pub(crate) has_id: bool,
+    pub(crate) reason: u8,
+    pub(crate) has_reason: bool,
+    pub(crate) session_present: bool,
+    /// property block (without its length prefix): offset, length
+    pub(crate) props: (usize, usize),
+    pub(crate) has_props: bool,
+    pub(crate) topic: (usize, usize),
+    /// payload / reason-code list: offset, length
+    pub(crate) rest: (usize, usize),
+}
+
+pub(crate) const SBAD: ServerParsed = ServerParsed {
+    ok: false, typ: 0, flags: 0, packet_id: 0, has_id: false, reason: 0, has_reason: false,
+    session_present: false, props: (0, 0), has_props: false, topic: (0, 0), rest: (0, 0),
+};
+
+fn props_block(c: &mut Cursor<'_>, strict: bool, ctx: Ctx, max_props: usize) -> (usize, usize) {
+    if strict {
+        // validate contents too
+        let mut probe = *c;
+        check_props(&mut probe, ctx, max_props);
+        if !probe.ok {
+            c.ok = false;
+            return (0, 0);
+        }
+    }
+    let len = c.varint() as usize;
+    let start = c.i;
+    c.bytes(len);
+    (start, len)
+}
+
+/// `strict = false`: structural validity only — exactly the malformed classes C08 lists are
+/// rejected (type, flags, QoS 3, non-canonical or wrong remaining length, fields past the end,
+/// trailing bytes, invalid UTF-8 topic).  `strict = true`: additionally everything MQTT 5 demands
+/// of a server packet that this client can receive (legal well-formed properties, non-zero ids,
+/// DUP only with QoS > 0, at least one reason code in SUBACK/UNSUBACK, boolean flags).
+pub(crate) fn check_server_packet(b: &[u8], strict: bool, max_props: usize) -> ServerParsed {
+    let mut c = Cursor::new(b);
+    let h = c.u8();
+    let typ = h >> 4;
+    let flags = h & 0x0F;
+    let rl = c.varint() as usize;
+    if !c.ok || c.left() != rl {
+        return SBAD;
+    }
+    let mut p = SBAD;
+    p.typ = typ;
+    p.flags = flags;
+    match typ {
+        2 => {
+            if flags != 0 {
+                return SBAD;
+            }
+            let af = c.u8();
+            if af > 1 {
+                return SBAD;
+            }
+            p.session_present = af == 1;
+            p.reason = c.u8();
+            p.has_reason = true;
+            p.props = props_block(&mut c, strict, Ctx::ConnAck, max_props);
+            p.has_props = true;
+            if strict && p.session_present && p.reason != 0 {
+                return SBAD;
+            }
+        }
+        3 => {
+            let qos = (flags >> 1) & 3;
+            if qos == 3 {
+                return SBAD;
+            }
+            if strict && qos == 0 && flags & 8 != 0 {
+                return SBAD;
+            }
+            let tl = c.u16() as usize;
+            let ts = c.i;
+            let t = c.bytes(tl);
+            if !c.ok || !utf8_ok(t) {
+                return SBAD;
+            }
+            p.topic = (ts, tl);
+            if strict && tl == 0 {
+                return SBAD; // an empty topic needs a topic alias, which this client never enables
+            }
+            if qos > 0 {
+                p.packet_id = c.u16();
+                p.has_id = true;
+                if strict && p.packet_id == 0 {
+                    return SBAD;
+                }
+            }
+            p.props = props_block(&mut c, strict, Ctx::Publish, max_props);
+            p.has_props = true;
+            p.rest = (c.i, c.left());
+            let l = c.left();
+            c.bytes(l);
+        }
+        4 | 5 | 6 | 7 => {
+            if (typ == 6 && flags != 2) || (typ != 6 && flags != 0) {
+                return SBAD;
+            }
+            p.packet_id = c.u16();
+            p.has_id = true;
+            if strict && p.packet_id == 0 {
+                return SBAD;
+            }
+            if c.left() > 0 {
+                p.reason = c.u8();
+                p.has_reason = true;
+                if c.left() > 0 {
+                    p.props = props_block(&mut c, strict, Ctx::PubAckLike, max_props);
+                    p.has_props = true;
+                }
+            }
+        }
+        9 | 11 => {
+            if flags != 0 {
+                return SBAD;
+            }
+            p.packet_id = c.u16();
+            p.has_id = true;
+            p.props = props_block(&mut c, strict, Ctx::SubAckLike, max_props);
+            p.has_props = true;
+            p.rest = (c.i, c.left());
+            if strict && (c.left() == 0 || p.packet_id == 0) {
+                return SBAD;
+            }
+            let l = c.left();
+            c.bytes(l);
+        }
+        13 => {
+            if flags != 0 || rl != 0 {
+                return SBAD;
+            }
+        }
+        14 => {
+            if flags != 0 {
+                return SBAD;
+            }
+            if c.left() > 0 {
+                p.reason = c.u8();
+                p.has_reason = true;
+                if c.left() > 0 {
+                    p.props = props_block(&mut c, strict, Ctx::Disconnect, max_props);
+                    p.has_props = true;
+                }
+            }
+        }
+        _ => return SBAD, // reserved (0), client-only (1, 8, 10, 12), AUTH (15: never negotiated)
+    }
+    if !c.ok || c.left() != 0 {
+        return SBAD;
+    }
+    p.ok = true;
+    p
+}
+
+// ---------------------------------------------------------------------------------------------
+// Reference ENCODER for client packets (independent of the crate's serde codec): written
+// byte by byte from the MQTT 5 packet layouts (3.1 CONNECT, 3.3 PUBLISH, 3.8 SUBSCRIBE,
+// 3.10 UNSUBSCRIBE, 3.14 DISCONNECT, 3.4-3.7 acknowledgements, 3.12 PINGREQ).
+// The encoder harnesses compare the crate's output with it byte for byte (a general parser over
+// the crate's output explodes: CBMC loses constant propagation through copy_from_slice), and
+// `c01_ref_*_wellformed` ties it to the reference checker above.
+// ---------------------------------------------------------------------------------------------
+pub(crate) const WCAP: usize = 56;
+
+/// Byte writer; the first two bytes are reserved for the fixed header (all reference packets have
+/// a body shorter than 128 bytes).
+pub(crate) struct W {
+    pub(crate) b: [u8; WCAP],
+    pub(crate) n: usize,
+}
+
+impl W {
+    pub(crate) fn new() -> Self {
+        W { b: [0; WCAP], n: 2 }
+    }
+    pub(crate) fn u8(&mut self, v: u8) {
+        self.b[self.n] = v;
+        self.n += 1;
+    }
+    pub(crate) fn u16(&mut self, v: u16) {
+        self.u8((v >> 8) as u8);
+        self.u8(v as u8);
+    }
+    pub(crate) fn u32(&mut self, v: u32) {
+        self.u16((v >> 16) as u16);
+        self.u16(v as u16);
+    }
+    pub(crate) fn bin(&mut self, d: &[u8]) {
+        self.u16(d.len() as u16);
+        self.raw(d);
+    }
+    pub(crate) fn raw(&mut self, d: &[u8]) {
+        let mut i = 0;
+        while i < d.len() {
+            self.u8(d[i]);
+            i += 1;
+        }
+    }
+    /// Fill in the fixed header; returns the total packet length.
+    pub(crate) fn finish(&mut self, first: u8) -> usize {
+        self.b[0] = first;
+        self.b[1] = (self.n - 2) as u8;
+        self.n
+    }
+}
+
+macro_rules! cmp_bytes {
+    ($got:expr, $want:expr, $n:expr; $($i:literal)*) => {
+        $( if $i < $n && $got[$i] != $want[$i] { return false; } )*
+    };
+}
+
+/// `got` must equal the first `n` bytes of `want` (unrolled: no loop, no unwinding bound).
+pub(crate) fn same_bytes(got: &[u8], want: &[u8; WCAP], n: usize) -> bool {
+    if got.len() != n || n > WCAP {
+        return false;
+    }
+    cmp_bytes!(got, want, n; 0 1 2 3 4 5 6 7 8 9 10 11 12 13 14 15 16 17 18 19 20 21 22 23 24 25 26 27 28 29 30 31 32 33 34 35 36 37 38 39 40 41 42 43 44 45 46 47 48 49 50 51 52 53 54 55);
+    true
+}
